@@ -150,116 +150,142 @@ func checkC01(c *Ctx) {
 	}
 	fname := name(fn)
 	rP := fn.Params[0]
-	// ---- the type switch over the optional header: case type -> block
-	type swCase struct {
-		T     types.Type // pointee struct type
-		val   ssa.Value  // asserted value
-		block *ssa.BasicBlock
+	dv := c.deepViewOf(fn, 3)
+	dv.stopAt = map[string]bool{acPkg + ".PaddingBytes": true}
+	undecidedShape := func(rule, construct, why string) {
+		c.R.Infof(rule, fname, construct, c.Pos(fn.Pos()), "not decided for this shape: "+why)
 	}
-	var cases []swCase
-	instrsOf(fn, func(i ssa.Instruction) {
-		ta, ok := i.(*ssa.TypeAssert)
-		if !ok || !ta.CommaOk {
-			return
-		}
-		id := ir.NamedTypeID(ta.AssertedType)
-		if id != "debug/pe.OptionalHeader32" && id != "debug/pe.OptionalHeader64" {
-			return
-		}
-		var val ssa.Value
-		var okv ssa.Value
-		for _, r := range *ta.Referrers() {
-			if ex, isEx := r.(*ssa.Extract); isEx {
-				if ex.Index == 0 {
-					val = ex
-				} else {
-					okv = ex
-				}
-			}
-		}
-		for _, ce := range ir.CondEdges(fn) {
-			if ce.Cond == okv && ce.Truth {
-				cases = append(cases, swCase{ta.AssertedType.(*types.Pointer).Elem(), val, fn.Blocks[ce.Edge.To]})
-			}
-		}
-	})
-	if len(cases) != 2 {
-		c.R.Undecf("J1.layout", fname, "optional-header-switch", c.Pos(fn.Pos()), "Parse distinguishes PE32 and PE32+ optional headers by a type switch", fmt.Sprintf("%d cases found", len(cases)))
-		return
+	// ---- the arms that distinguish PE32 and PE32+ optional headers
+	arms := dv.typeArms("debug/pe.OptionalHeader32", "debug/pe.OptionalHeader64")
+	// ---- the list of hashed parts
+	var parts []listItem
+	if mrs := dv.callsTo(acPkg + ".newMultiReaderAt"); len(mrs) == 1 {
+		parts = dv.list(mrs[0].i.(*ssa.Call).Call.Args[0], mrs[0].fr)
 	}
-	parts, loopFlags, okP := c.multiReaderParts(fn)
-	if !okP || len(parts) < 5 {
-		c.R.Undecf("J1.layout", fname, "hashed-parts", c.Pos(fn.Pos()), "the hashed content is a multi-reader over a list of parts built by append", fmt.Sprintf("%d parts resolved", len(parts)))
-		return
+	resolved := len(parts) >= 5
+	for _, p := range parts {
+		if p.opaque {
+			resolved = false
+		}
 	}
-	// header parts: the non-loop parts before the first loop part
-	var hdr []*ssa.Call
-	k := 0
-	for ; k < len(parts) && !loopFlags[k]; k++ {
-		if call, ok := parts[k].(*ssa.Call); ok {
-			if _, _, _, isR := c.sectionRange(call); isR {
-				hdr = append(hdr, call)
+	switch {
+	case !resolved:
+		undecidedShape("J1.layout", "hashed-parts", "the hashed content is not a newMultiReaderAt over a list of parts built by append / slice literals that the evaluator can enumerate")
+	case len(arms) != 2 || ir.NamedTypeID(arms[0].T) == ir.NamedTypeID(arms[1].T):
+		undecidedShape("J1.layout", "optional-header-switch", fmt.Sprintf("PE32 and PE32+ are not distinguished by two type assertions on the optional header (%d found)", len(arms)))
+	default:
+		c.headerRanges(dv, fn, parts, arms, rP)
+	}
+	if resolved {
+		// ---- J2: sorted by file offset, zero-size sections skipped, then the tail
+		c.sectionOrder(dv, fn, parts)
+		c.tailData(dv, fn, parts, arms)
+	} else {
+		undecidedShape("J2.order", "section-parts", "the list of hashed parts is not enumerable")
+		undecidedShape("J3.tail", "trailing-data", "the list of hashed parts is not enumerable")
+	}
+	// ---- J4: the digest is the hash over hashContent only
+	if h := c.Fn("J4.hash", "authenticode.(*PECOFFBinary).Hash"); h != nil {
+		dh := c.deepViewOf(h, 2)
+		var bad []string
+		n := 0
+		for _, r := range ir.Returns(h) {
+			if ir.IsNilConst(r.Results[0]) {
 				continue
 			}
-		}
-		break
-	}
-	if len(hdr) != 3 {
-		c.R.Violf("J1.layout", fname, "header-ranges", c.Pos(fn.Pos()), "the headers are hashed as three ranges (before checksum, between checksum and certificate-table entry, after the entry)",
-			fmt.Sprintf("%d header ranges found before the sections", len(hdr)))
-		return
-	}
-	// phis merging the switch
-	phis := map[*ssa.Phi]bool{}
-	instrsOf(fn, func(i ssa.Instruction) {
-		if ph, ok := i.(*ssa.Phi); ok {
-			for _, cs := range cases {
-				for _, p := range ph.Block().Preds {
-					if p == cs.block || cs.block.Dominates(p) {
-						phis[ph] = true
-					}
+			n++
+			dg := dh.digestOf(r.Results[0], dh.root)
+			switch {
+			case !dg.ok:
+				bad = append(bad, "the result is not the Sum(nil) of a hash: "+dg.why)
+			case !dg.byParm || !(dg.algo.fr == dh.root && ir.StripConv(dg.algo.v) == ssa.Value(h.Params[1])):
+				bad = append(bad, "the hash is not constructed from the algorithm parameter")
+			case dg.why != "":
+				bad = append(bad, "the hash is "+dg.why)
+			case len(dg.inputs) != 0 || len(dg.copies) != 1:
+				bad = append(bad, "the hash is not fed by exactly one io.Copy")
+			default:
+				sl := dh.sliceDeep(dg.copies[0].v, dg.copies[0].fr)
+				if !ir.HasField(sl, acPkg+".PECOFFBinary.hashContent") {
+					bad = append(bad, "the data hashed is not the image's hashContent")
 				}
 			}
 		}
-	})
-	for _, cs := range cases {
-		tname := ir.NamedTypeID(cs.T)
-		env := map[*ssa.Phi]ssa.Value{}
-		for ph := range phis {
-			for j, p := range ph.Block().Preds {
-				if p == cs.block || cs.block.Dominates(p) {
-					env[ph] = ph.Edges[j]
-				}
-			}
+		if n == 0 {
+			bad = append(bad, "Hash never returns a digest")
 		}
-		affineEnv = env
+		c.R.Check(len(bad) == 0, "J4.hash", name(h), "digest", c.Pos(h.Pos()), "the reported digest is Sum(nil) of the requested hash fed once with the hash content", strings.Join(bad, "; "))
+	}
+	if resolved {
+		c.R.Floor("J1.layout", 2)
+		c.R.Floor("J2.order", 3)
+		c.R.Floor("J3.tail", 1)
+	}
+}
+
+// headerRanges (J1): per optional-header type the three hashed header ranges.
+func (c *Ctx) headerRanges(dv *deepView, fn *ssa.Function, parts []listItem, arms []typeArm, rP *ssa.Parameter) {
+	fname := name(fn)
+	// header parts: the leading parts appended outside loops
+	k := 0
+	for k < len(parts) && !parts[k].loop {
+		k++
+	}
+	hdr := parts[:k]
+	if k == len(parts) {
+		// no loop part at all: the last one is the tail
+		hdr = parts[:k-1]
+	}
+	for _, arm := range arms {
+		tname := ir.NamedTypeID(arm.T)
+		construct := "ranges:" + tname[strings.LastIndex(tname, ".")+1:]
+		what := "for " + tname + " the hashed header ranges are [0,checksum) (checksum+4, certificate-table entry) (entry+8, SizeOfHeaders) with offsets from the debug/pe struct layout"
+		var rs []sectRange
+		okR := true
+		for _, h := range hdr {
+			var r sectRange
+			ok := false
+			dv.under(h, func() { r, ok = dv.sectionRangeOf(h.v.v, h.v.fr, arm.sel) })
+			if !ok {
+				okR = false
+				break
+			}
+			rs = append(rs, r)
+		}
+		if !okR {
+			c.R.Infof("J1.layout", fname, construct, c.Pos(fn.Pos()), "not decided for this shape: a header part is not a section reader the evaluator can resolve")
+			continue
+		}
+		if len(rs) != 3 {
+			c.R.Violf("J1.layout", fname, construct, c.Pos(fn.Pos()), what, fmt.Sprintf("%d header ranges are hashed before the sections, want three (before the checksum, between checksum and certificate-table entry, after the entry)", len(rs)))
+			continue
+		}
 		var bad []string
-		offCk, ok1 := structOffset(cs.T, "CheckSum")
-		offDD, ok2 := structOffset(cs.T, "DataDirectory")
+		offCk, ok1 := structOffset(arm.T, "CheckSum")
+		offDD, ok2 := structOffset(arm.T, "DataDirectory")
 		if !ok1 || !ok2 {
 			bad = append(bad, "cannot compute the layout of "+tname)
 		}
-		// directory index used in this case
+		// directory index used in this arm
 		kIdx := int64(-1)
-		instrsOf(fn, func(i ssa.Instruction) {
-			ia, ok := i.(*ssa.IndexAddr)
-			if !ok || !(ia.Block() == cs.block || cs.block.Dominates(ia.Block())) {
-				return
-			}
-			if fa, ok := ia.X.(*ssa.FieldAddr); ok && fa.X == cs.val && ir.FieldOf(fa).Name() == "DataDirectory" {
-				if n, isK := ir.ConstInt(ia.Index); isK {
-					kIdx = n
+		for _, f := range withAnon(arm.sel.fr.fn) {
+			instrsOf(f, func(i ssa.Instruction) {
+				ia, ok := i.(*ssa.IndexAddr)
+				if !ok || f == arm.sel.fr.fn && !(ia.Block() == arm.sel.block || arm.sel.block.Dominates(ia.Block())) {
+					return
 				}
-			}
-		})
+				if fa, ok := ia.X.(*ssa.FieldAddr); ok && fa.X == arm.val && ir.FieldOf(fa).Name() == "DataDirectory" {
+					if n, isK := ir.ConstInt(ia.Index); isK {
+						kIdx = n
+					}
+				}
+			})
+		}
 		if kIdx != 4 {
 			bad = append(bad, fmt.Sprintf("the certificate-table entry is read from DataDirectory[%d], want IMAGE_DIRECTORY_ENTRY_SECURITY = 4", kIdx))
 		}
-		// B = e_lfanew + sizeof(FileHeader) + 4
-		_, s0, e0, _ := c.sectionRange(hdr[0])
-		_, s1, e1, _ := c.sectionRange(hdr[1])
-		_, s2, e2, _ := c.sectionRange(hdr[2])
-		// find the e_lfanew symbol: the only symbol of e0
+		s0, e0, s1, e1, s2, e2 := rs[0].start, rs[0].end, rs[1].start, rs[1].end, rs[2].start, rs[2].end
+		// B = e_lfanew + sizeof(FileHeader) + 4; e_lfanew is the only symbol of e0
 		var lfanew string
 		var lfaVal ssa.Value
 		for sym, v := range e0.Sym {
@@ -271,7 +297,6 @@ func checkC01(c *Ctx) {
 		if len(e0.T) != 1 || e0.T[lfanew] != 1 {
 			bad = append(bad, "the end of the first range is not e_lfanew + constant: "+e0.String())
 		} else {
-			// e_lfanew is LittleEndian.Uint32 of the DOS header at 0x3c
 			okL := false
 			if call, ok := ir.StripConv(lfaVal).(*ssa.Call); ok && strings.HasSuffix(ir.CallID(call), "ittleEndian.Uint32") {
 				args := ir.CallArgs(call)
@@ -307,59 +332,20 @@ func checkC01(c *Ctx) {
 		// third range ends at SizeOfHeaders of this header
 		okSOH := false
 		for sym := range e2.T {
-			if strings.HasSuffix(sym, ".SizeOfHeaders") && e2.T[sym] == 1 && len(e2.T) == 1 && e2.K == 0 {
+			if strings.HasSuffix(sym, ".SizeOfHeaders") && strings.Contains(sym, tname[strings.LastIndex(tname, ".")+1:]) && e2.T[sym] == 1 && len(e2.T) == 1 && e2.K == 0 {
 				okSOH = true
 			}
 		}
 		if !okSOH {
-			bad = append(bad, "the third range does not end at SizeOfHeaders: "+e2.String())
+			bad = append(bad, "the third range does not end at SizeOfHeaders of this optional header: "+e2.String())
 		}
-		for _, h := range hdr {
-			if src, _, _, _ := c.sectionRange(h); ir.StripIface(src) != ssa.Value(rP) {
+		for _, r := range rs {
+			if !(r.src.fr == dv.root && r.src.v == ssa.Value(rP)) {
 				bad = append(bad, "a header range does not read from the image reader")
 			}
 		}
-		affineEnv = nil
-		c.R.Check(len(bad) == 0, "J1.layout", fname, "ranges:"+tname[strings.LastIndex(tname, ".")+1:], c.Pos(fn.Pos()),
-			"for "+tname+" the hashed header ranges are [0,checksum) (checksum+4, certificate-table entry) (entry+8, SizeOfHeaders) with offsets from the debug/pe struct layout", strings.Join(bad, "; "))
+		c.R.Check(len(bad) == 0, "J1.layout", fname, construct, c.Pos(fn.Pos()), what, strings.Join(bad, "; "))
 	}
-	affineEnv = nil
-
-	// ---- J2: sorted by file offset, zero-size sections skipped, then the tail
-	c.sectionOrder(fn, parts, loopFlags)
-	c.tailData(fn, parts, loopFlags)
-	// ---- J4: the digest is the hash over hashContent only
-	if h := c.Fn("J4.hash", "authenticode.(*PECOFFBinary).Hash"); h != nil {
-		var bad []string
-		for _, r := range ir.Returns(h) {
-			if ir.IsNilConst(r.Results[0]) {
-				continue
-			}
-			sum, ok := r.Results[0].(*ssa.Call)
-			if !ok || !sum.Call.IsInvoke() || sum.Call.Method.Name() != "Sum" || !ir.IsNilConst(sum.Call.Args[0]) {
-				bad = append(bad, "the result is not hh.Sum(nil)")
-				continue
-			}
-			hh := sum.Call.Value
-			ctor, isC := hh.(*ssa.Call)
-			if !isC || ir.CallID(ctor) != "crypto.Hash.New" || ctor.Call.Args[0] != ssa.Value(h.Params[1]) {
-				bad = append(bad, "the hash is not constructed from the algorithm parameter")
-			}
-			ws, cps := hashInputs(h, hh)
-			if len(ws) != 0 || len(cps) != 1 {
-				bad = append(bad, "the hash is not fed by exactly one io.Copy")
-			} else {
-				sl := c.Slicer().Slice(cps[0])
-				if !ir.HasField(sl, acPkg+".PECOFFBinary.hashContent") {
-					bad = append(bad, "the data hashed is not the image's hashContent")
-				}
-			}
-		}
-		c.R.Check(len(bad) == 0, "J4.hash", name(h), "digest", c.Pos(h.Pos()), "the reported digest is Sum(nil) of the requested hash fed once with the hash content", strings.Join(bad, "; "))
-	}
-	c.R.Floor("J1.layout", 2)
-	c.R.Floor("J2.order", 3)
-	c.R.Floor("J3.tail", 1)
 }
 
 func peFileHeader(c *Ctx) types.Type {
@@ -371,55 +357,95 @@ func peFileHeader(c *Ctx) types.Type {
 	return types.Typ[types.Invalid]
 }
 
+// seqOf: position of an instruction of a frame in the view's program order.
+func (d *deepView) seqOf(i ssa.Instruction, fr *frame) int {
+	for _, di := range d.order {
+		if di.i == i && di.fr == fr {
+			return di.seq
+		}
+	}
+	return -1
+}
+
+// frameOfFn: the unique frame of fn in the view (nil if none or several).
+func (d *deepView) frameOfFn(fn *ssa.Function) *frame {
+	var out *frame
+	for _, f := range d.frames {
+		if f.fn == fn {
+			if out != nil {
+				return nil
+			}
+			out = f
+		}
+	}
+	return out
+}
+
 // sectionOrder (J2).
-func (c *Ctx) sectionOrder(fn *ssa.Function, parts []ssa.Value, loopFlags []bool) {
+func (c *Ctx) sectionOrder(dv *deepView, fn *ssa.Function, parts []listItem) {
 	fname := name(fn)
 	// the per-section part
-	var secPart *ssa.Call
-	for k, p := range parts {
-		if loopFlags[k] {
-			if call, ok := p.(*ssa.Call); ok {
-				secPart = call
+	var sec *listItem
+	for k := range parts {
+		if parts[k].loop {
+			if _, ok := ir.StripIface(parts[k].v.v).(*ssa.Call); ok {
+				sec = &parts[k]
 			}
 		}
 	}
-	if secPart == nil {
+	if sec == nil {
 		c.R.Violf("J2.order", fname, "section-parts", c.Pos(fn.Pos()), "each section with raw data contributes one part inside the section loop", "no part is appended inside a loop")
 		return
 	}
+	secPart := ir.StripIface(sec.v.v).(*ssa.Call)
+	sfr := sec.v.fr
+	lf := sfr.fn
 	// the section value and the slice it is taken from
 	var secVal ssa.Value
-	if len(secPart.Call.Args) > 0 {
-		secVal = secPart.Call.Args[0]
+	for _, a := range secPart.Call.Args {
+		if ir.NamedTypeID(ir.StripIface(a).Type()) == "debug/pe.Section" {
+			secVal = ir.StripIface(a)
+			break
+		}
 	}
-	var ranged ssa.Value
+	var ranged dval
+	haveRanged := false
 	if ld, ok := secVal.(*ssa.UnOp); ok {
 		if ia, ok := ld.X.(*ssa.IndexAddr); ok {
-			ranged = ia.X
+			ranged, haveRanged = dv.resolve(ia.X, sfr), true
 		}
 	}
 	// the sort call
 	var sortCall *ssa.Call
-	instrsOf(fn, func(i ssa.Instruction) {
-		if call, ok := i.(*ssa.Call); ok {
+	var sortFr *frame
+	for _, di := range dv.order {
+		if call, ok := di.i.(*ssa.Call); ok {
 			id := ir.CallID(call)
 			if strings.HasPrefix(id, "slices.SortFunc") || strings.HasPrefix(id, "slices.SortStableFunc") || id == "sort.Slice" || id == "sort.SliceStable" {
-				sortCall = call
+				sortCall, sortFr = call, di.fr
 			}
 		}
-	})
+	}
 	ok, det := false, ""
 	switch {
 	case sortCall == nil:
 		det = "the sections are not sorted before they are hashed"
-	case ranged == nil:
+	case !haveRanged:
 		det = "the loop does not take its sections from an indexed slice"
-	case ir.StripIface(sortCall.Call.Args[0]) != ranged:
-		det = "the slice that is sorted is not the slice the section loop ranges over (the sort has no effect on the hashing order)"
-	case !sortCall.Block().Dominates(secPart.Block()):
-		det = "the sort does not precede the section loop on every path"
 	default:
-		ok = true
+		sorted := dv.resolve(ir.StripIface(sortCall.Call.Args[0]), sortFr)
+		before := dv.seqOf(sortCall, sortFr) < dv.seqOf(secPart, sfr)
+		if sortFr == sfr {
+			before = sortCall.Block().Dominates(secPart.Block())
+		}
+		switch {
+		case !sorted.same(ranged) && dv.pathName(sorted.v, sorted.fr, 0) != dv.pathName(ranged.v, ranged.fr, 0):
+			det = "the slice that is sorted is not the slice the section loop ranges over (the sort has no effect on the hashing order)"
+		case !before:
+			det = "the sort does not precede the section loop on every path"
+		default:
+			ok = true
+		}
 	}
 	c.R.Check(ok, "J2.order", fname, "sorted-slice-is-hashed", c.Pos(fn.Pos()), "the section table that is hashed is the one sorted before the loop", det)
 	if sortCall != nil {
@@ -428,18 +454,29 @@ func (c *Ctx) sectionOrder(fn *ssa.Function, parts []ssa.Value, loopFlags []bool
 	}
 	// zero-size sections contribute nothing
 	okZ, detZ := false, "the append of the section part is not guarded by SizeOfRawData != 0"
-	for _, ce := range ir.DominatingConds(fn, secPart.Block()) {
+	mentions := false
+	at := secPart.Block()
+	if ai, isI := sec.at.(ssa.Instruction); isI && ai != nil && ai.Parent() == lf {
+		at = ai.Block()
+	}
+	for _, ce := range ir.DominatingConds(lf, at) {
 		cmp, isB := ce.Cond.(*ssa.BinOp)
 		if !isB {
+			if ir.HasField(dv.sliceDeep(ce.Cond, sfr), "debug/pe.SectionHeader.Size") {
+				mentions = true
+			}
 			continue
 		}
-		if k, isK := ir.ConstInt(cmp.Y); !isK || k != 0 {
+		x, y, op := cmp.X, cmp.Y, cmp.Op
+		if k, isK := ir.ConstInt(x); isK && k == 0 {
+			x, y, op = y, x, flip(op)
+		}
+		if k, isK := ir.ConstInt(y); !isK || k != 0 {
 			continue
 		}
-		if ir.FieldID(ir.StripConv(cmp.X)) != "debug/pe.SectionHeader.Size" {
+		if ir.FieldID(ir.StripConv(x)) != "debug/pe.SectionHeader.Size" {
 			continue
 		}
-		op := cmp.Op
 		if !ce.Truth {
 			op = negate(op)
 		}
@@ -447,18 +484,33 @@ func (c *Ctx) sectionOrder(fn *ssa.Function, parts []ssa.Value, loopFlags []bool
 			okZ, detZ = true, ""
 		}
 	}
-	c.R.Check(okZ, "J2.order", fname, "skip-empty", c.IPos(secPart), "sections without raw data are skipped", detZ)
-	// the part reads the section's raw data with its SizeOfRawData
-	if callee := ir.Callee(secPart); callee != nil && c.P.InLib(callee) {
-		okS := false
-		for _, r := range ir.Returns(callee) {
-			sl := c.Slicer().Slice(r.Results[0])
-			if sl[callee.Params[0]] && ir.HasField(sl, "debug/pe.SectionHeader.Size") && !ir.HasField(sl, "debug/pe.SectionHeader.VirtualSize") {
-				okS = true
-			}
-		}
-		c.R.Check(okS, "J2.order", name(callee), "section-extent", c.Pos(callee.Pos()), "a section part reads the section's raw data over SizeOfRawData bytes", "the part's size does not derive from SectionHeader.Size of the same section")
+	if !okZ && mentions {
+		c.R.Infof("J2.order", fname, "skip-empty", c.IPos(secPart), "not decided for this shape: the section part is guarded by a predicate over SizeOfRawData that is not a direct comparison with zero")
+	} else {
+		c.R.Check(okZ, "J2.order", fname, "skip-empty", c.IPos(secPart), "sections without raw data are skipped", detZ)
 	}
+	// the part reads the section's raw data with its SizeOfRawData
+	owner := fname
+	if callee := ir.Callee(secPart); callee != nil && c.P.InLib(callee) {
+		owner = name(callee)
+	}
+	sl := dv.sliceDeep(secPart, sfr)
+	okS := secVal != nil && sl[secVal] && ir.HasField(sl, "debug/pe.SectionHeader.Size") && !ir.HasField(sl, "debug/pe.SectionHeader.VirtualSize")
+	c.R.Check(okS, "J2.order", owner, "section-extent", c.IPos(secPart), "a section part reads the section's raw data over SizeOfRawData bytes", "the part's size does not derive from SectionHeader.Size of the same section")
+}
+
+func flip(op token.Token) token.Token {
+	switch op {
+	case token.LSS:
+		return token.GTR
+	case token.GTR:
+		return token.LSS
+	case token.LEQ:
+		return token.GEQ
+	case token.GEQ:
+		return token.LEQ
+	}
+	return op
 }
 
 // ascendingByOffset judges the comparator of the sort call over the ordering
@@ -538,100 +590,147 @@ func (c *Ctx) ascendingByOffset(sortCall *ssa.Call) (bool, string) {
 }
 
 // tailData (J3): data after the last section minus the certificate table, padded to 8.
-func (c *Ctx) tailData(fn *ssa.Function, parts []ssa.Value, loopFlags []bool) {
+func (c *Ctx) tailData(dv *deepView, fn *ssa.Function, parts []listItem, arms []typeArm) {
 	fname := name(fn)
 	last := parts[len(parts)-1]
 	var bad []string
-	call, ok := last.(*ssa.Call)
-	if !ok || loopFlags[len(parts)-1] {
+	call, ok := ir.StripIface(last.v.v).(*ssa.Call)
+	if !ok || last.loop {
 		c.R.Violf("J3.tail", fname, "trailing-data", c.Pos(fn.Pos()), "the last hashed part is the data after the sections", "the last part is not a single reader built after the section loop")
 		return
 	}
-	sl := c.Slicer().Slice(call)
-	// the buffer
-	var rest *ssa.Alloc
+	sl := dv.sliceDeep(call, last.v.fr)
+	// the buffer whose Bytes() become the last part
+	var rest dval
+	found, ambiguous := false, false
 	for v := range sl {
-		if a, ok := v.(*ssa.Alloc); ok && ir.NamedTypeID(a.Type()) == "bytes.Buffer" {
-			rest = a
+		bc, ok := v.(*ssa.Call)
+		if !ok || ir.CallID(bc) != "bytes.Buffer.Bytes" {
+			continue
 		}
+		fr := dv.frameOfFn(bc.Parent())
+		if fr == nil {
+			continue
+		}
+		obj := dv.objectOf(bc.Call.Args[0], fr)
+		if _, isA := obj.v.(*ssa.Alloc); !isA {
+			continue
+		}
+		if found && !obj.same(rest) {
+			ambiguous = true
+		}
+		rest, found = obj, true
 	}
-	if rest == nil {
-		c.R.Violf("J3.tail", fname, "trailing-data", c.IPos(call), "the last hashed part is the data after the sections", "the last part does not come from a local buffer")
+	if !found || ambiguous {
+		c.R.Infof("J3.tail", fname, "trailing-data", c.IPos(call), "not decided for this shape: the last part is not the Bytes() of one local bytes.Buffer")
 		return
 	}
 	var copyCall, trunc, padWrite *ssa.Call
-	for _, r := range *rest.Referrers() {
-		switch x := r.(type) {
-		case *ssa.Call:
-			switch ir.CallID(x) {
-			case "bytes.Buffer.Truncate":
-				trunc = x
-			case "bytes.Buffer.Write":
-				padWrite = x
+	var copyFr, truncFr, padFr *frame
+	for _, di := range dv.order {
+		cc, ok := di.i.(*ssa.Call)
+		if !ok {
+			continue
+		}
+		switch ir.CallID(cc) {
+		case "bytes.Buffer.Truncate":
+			if dv.objectOf(cc.Call.Args[0], di.fr).same(rest) {
+				trunc, truncFr = cc, di.fr
 			}
-		case *ssa.MakeInterface:
-			for _, rr := range *x.Referrers() {
-				if cc, ok := rr.(*ssa.Call); ok && ir.CallID(cc) == "io.Copy" && cc.Call.Args[0] == ssa.Value(x) {
-					copyCall = cc
-				}
+		case "bytes.Buffer.Write":
+			if dv.objectOf(cc.Call.Args[0], di.fr).same(rest) {
+				padWrite, padFr = cc, di.fr
+			}
+		case "io.Copy":
+			if dv.objectOf(cc.Call.Args[0], di.fr).same(rest) {
+				copyCall, copyFr = cc, di.fr
 			}
 		}
 	}
 	// (a) filled from sum-of-bytes-hashed to the end of the file
 	if copyCall == nil {
 		bad = append(bad, "the buffer is not filled by io.Copy from the image")
-	} else if src, ok := ir.StripIface(copyCall.Call.Args[1]).(*ssa.Call); !ok || ir.CallID(src) != "io.NewSectionReader" {
+	} else if sr, ok := dv.sectionRangeOf(copyCall.Call.Args[1], copyFr, nil); !ok {
 		bad = append(bad, "the trailing data is not read through a section reader over the image")
 	} else {
-		start := src.Call.Args[1]
-		// start = SizeOfHeaders + Σ Size of the hashed sections: a loop phi
-		ph, isPhi := start.(*ssa.Phi)
-		okSum := false
-		if isPhi {
-			entryOK, stepOK := false, false
-			for j, e := range ph.Edges {
-				if e == ssa.Value(ph) {
+		if !(sr.src.fr == dv.root && sr.src.v == ssa.Value(fn.Params[0])) {
+			bad = append(bad, "the trailing data is not read from the image reader")
+		}
+		if n := dv.affine(sr.call.Call.Args[2], sr.fr, nil, 0); !n.isConst() || n.K < 1<<40 {
+			bad = append(bad, "the trailing data is not read to the end of the file")
+		}
+		// start = SizeOfHeaders + Σ Size of the hashed sections, per optional-header type
+		sels := []*caseSel{nil}
+		if len(arms) == 2 {
+			sels = []*caseSel{arms[0].sel, arms[1].sel}
+		}
+		for _, sel := range sels {
+			a := dv.affine(sr.call.Call.Args[1], sr.fr, sel, 0)
+			stepOK := false
+			total := a.clone()
+			for sym, v := range a.Sym {
+				ph, isPhi := v.(*ssa.Phi)
+				if !isPhi || a.T[sym] != 1 {
 					continue
 				}
-				pred := ph.Block().Preds[j]
-				if pred.Index < ph.Block().Index {
-					a := affineOf(e, 0)
-					_ = a
-					if ph2, ok := e.(*ssa.Phi); ok {
-						// SizeOfHeaders phi of the switch
-						for _, e2 := range ph2.Edges {
-							if strings.HasSuffix(ir.FieldID(ir.StripConv(e2)), ".SizeOfHeaders") {
-								entryOK = true
-							}
+				pfr := dv.frameOfFn(ph.Parent())
+				if pfr == nil {
+					continue
+				}
+				isSum := false
+				entry := newAffine()
+				nEntry := 0
+				for j, e := range ph.Edges {
+					if e == ssa.Value(ph) {
+						continue
+					}
+					if ph.Block().Preds[j].Index < ph.Block().Index {
+						entry = dv.affine(e, pfr, sel, 0)
+						nEntry++
+					} else if bo, ok := e.(*ssa.BinOp); ok && bo.Op == token.ADD {
+						x, y := bo.X, bo.Y
+						if y == ssa.Value(ph) {
+							x, y = y, x
+						}
+						if x == ssa.Value(ph) && ir.FieldID(ir.StripConv(y)) == "debug/pe.SectionHeader.Size" {
+							isSum = true
 						}
 					}
-				} else if bo, ok := e.(*ssa.BinOp); ok && bo.Op == token.ADD && bo.X == ssa.Value(ph) && ir.FieldID(ir.StripConv(bo.Y)) == "debug/pe.SectionHeader.Size" {
+				}
+				if isSum && nEntry == 1 {
 					stepOK = true
+					delete(total.T, sym)
+					total = total.add(entry, 1)
 				}
 			}
-			okSum = entryOK && stepOK
-		}
-		if !okSum {
-			bad = append(bad, "the trailing data does not start at SizeOfHeaders plus the sizes of the hashed sections")
-		}
-		if n, isK := ir.ConstInt(src.Call.Args[2]); !isK || n < 1<<40 {
-			bad = append(bad, "the trailing data is not read to the end of the file")
+			okStart := stepOK && total.K == 0 && len(total.T) == 1
+			for sym, cf := range total.T {
+				if cf != 1 || !strings.HasSuffix(sym, ".SizeOfHeaders") {
+					okStart = false
+				}
+			}
+			if !okStart && sel == nil && len(arms) != 2 {
+				c.R.Infof("J3.tail", fname, "trailing-data-start", c.IPos(call), "not decided for this shape: the start of the trailing data cannot be evaluated without the optional-header arms")
+			} else if !okStart {
+				bad = append(bad, "the trailing data does not start at SizeOfHeaders plus the sizes of the hashed sections (start is "+a.String()+")")
+				break
+			}
 		}
 	}
 	// (b) minus the certificate table
 	if trunc == nil {
 		bad = append(bad, "the certificate table is not cut off the trailing data (Truncate)")
 	} else {
-		a := affineOf(trunc.Call.Args[1], 0)
+		a := dv.affine(trunc.Call.Args[1], truncFr, nil, 0)
 		lenOK, sizeOK := false, false
 		for sym, cf := range a.T {
 			if strings.HasPrefix(sym, "len(") && cf == 1 {
-				lenOK = true
-			}
-			if strings.HasSuffix(sym, ".Size") && cf == -1 {
-				if ld, ok := ir.StripConv(a.Sym[sym]).(*ssa.UnOp); ok && ir.FieldID(ld.X) == "debug/pe.DataDirectory.Size" {
-					sizeOK = true
+				if lc, ok := a.Sym[sym].(*ssa.Call); ok && dv.objectOfAny(lc, rest) {
+					lenOK = true
 				}
+			}
+			if strings.HasSuffix(sym, ".Size") && cf == -1 && fieldIDOf(a.Sym[sym]) == "debug/pe.DataDirectory.Size" {
+				sizeOK = true
 			}
 		}
 		if !lenOK || !sizeOK || len(a.T) != 2 || a.K != 0 {
@@ -642,19 +741,40 @@ func (c *Ctx) tailData(fn *ssa.Function, parts []ssa.Value, loopFlags []bool) {
 	if padWrite == nil {
 		bad = append(bad, "no padding is appended")
 	} else {
-		ex, ok := padWrite.Call.Args[1].(*ssa.Extract)
+		pv := dv.resolve(padWrite.Call.Args[1], padFr)
+		ex, ok := pv.v.(*ssa.Extract)
 		pc, isCall := (*ssa.Call)(nil), false
 		if ok {
 			pc, isCall = ex.Tuple.(*ssa.Call)
 		}
 		if !ok || !isCall || ir.CallID(pc) != acPkg+".PaddingBytes" || ex.Index != 0 {
 			bad = append(bad, "the padding does not come from PaddingBytes")
-		} else if k, isK := ir.ConstInt(pc.Call.Args[1]); !isK || k != 8 {
+		} else if k, isK := ir.ConstInt(dv.resolve(pc.Call.Args[1], pv.fr).v); !isK || k != 8 {
 			bad = append(bad, "the padding block size is not 8")
 		}
-		if trunc != nil && !precedesInCFG(fn, trunc, padWrite) {
-			bad = append(bad, "the padding is written before the certificate table is cut off")
+		if trunc != nil {
+			before := dv.seqOf(trunc, truncFr) < dv.seqOf(padWrite, padFr)
+			if truncFr == padFr {
+				before = precedesInCFG(truncFr.fn, trunc, padWrite)
+			}
+			if !before {
+				bad = append(bad, "the padding is written before the certificate table is cut off")
+			}
 		}
 	}
 	c.R.Check(len(bad) == 0, "J3.tail", fname, "trailing-data", c.IPos(call), "after the sections the data up to the end of file minus the certificate table is hashed, zero padded to 8 bytes", strings.Join(bad, "; "))
+}
+
+// objectOfAny: some receiver/argument of the call denotes the object.
+func (d *deepView) objectOfAny(call *ssa.Call, obj dval) bool {
+	fr := d.frameOfFn(call.Parent())
+	if fr == nil {
+		return false
+	}
+	for _, a := range ir.CallArgs(call) {
+		if d.objectOf(a, fr).same(obj) {
+			return true
+		}
+	}
+	return false
 }
